@@ -276,6 +276,38 @@ def build_all_drivers():
 BASE_FLAGS = ["-std=c++20", "-DTETL_ENABLE_CUSTOM_ASSERT_HANDLER=1", "-w"]
 
 
+def build_all_harnesses(workers=6):
+    """setup: pre-compile the quick-tier harness variants of every package against /repo/include as it is now (the
+    executables are cached by content hash, so the first ./check of each property does not pay for the compile)"""
+    from concurrent.futures import ThreadPoolExecutor
+    jobs = []
+    for d in sorted((ROOT / "props").iterdir()):
+        if not (d / "prop.py").exists() or not (d / "harness.cpp").exists():
+            continue
+        try:
+            prop = load_prop(d.name)
+        except Exception as e:  # noqa
+            print("harness", d.name, "prop.py does not load:", e)
+            continue
+        for h in getattr(prop, "HARNESSES", [{"name": "main", "src": "harness.cpp", "flags": ["-O1", "-DTETL_ENABLE_CONTRACT_CHECKS=1"]}]):
+            if h.get("thorough_only"):
+                continue
+            jobs.append((d.name, h))
+
+    def one(job):
+        pid, h = job
+        t0 = time.time()
+        try:
+            exe, log = build_harness(pid, h["name"], h["src"], h["flags"], h.get("compiler", "g++"))
+            return f"harness {pid}/{h['name']} {'ok' if exe else 'FAILED'} {time.time() - t0:.0f}s" + ("" if exe else " " + log[-300:])
+        except Exception as e:  # noqa
+            return f"harness {pid}/{h['name']} FAILED {e}"
+    with ThreadPoolExecutor(max_workers=workers) as ex:
+        for line in ex.map(one, jobs):
+            print(line)
+    return True
+
+
 def build_harness(pid, name, src, flags, compiler="g++"):
     srcp = ROOT / "props" / pid / src
     deps = [srcp, ROOT / "harness" / "common.hpp"] + sorted((ROOT / "harness").glob("*.hpp"))
